@@ -2957,6 +2957,96 @@ def _fuse_projections(tree):
     return count
 
 
+def _memo_own_attribute(trees):
+    """@classmethod
+       def m(cls):
+           if vars(cls).get('_a') is None:      (the class's OWN attribute)
+               cls._a = E
+           return cls._a
+    with E made of re.compile and attributes of cls, and `_a` stored
+    nowhere else: m() is E, computed once per class.  -> return E
+    (a test on `cls._a`, which also sees the parent's value, is not this
+    idiom: a subclass would get its parent's E)."""
+    n = 0
+    stored = {}
+    for t in trees.values():
+        for x in ast.walk(t):
+            if isinstance(x, ast.Attribute) and \
+                    isinstance(x.ctx, (ast.Store, ast.Del)):
+                stored[x.attr] = stored.get(x.attr, 0) + 1
+            elif isinstance(x, ast.Call) and isinstance(x.func, ast.Name) \
+                    and x.func.id in ('setattr', 'delattr') and \
+                    len(x.args) >= 2 and \
+                    isinstance(x.args[1], ast.Constant):
+                stored[x.args[1].value] = stored.get(x.args[1].value, 0) + 1
+    for t in trees.values():
+        for k in ast.walk(t):
+            if not isinstance(k, ast.ClassDef):
+                continue
+            for fn in k.body:
+                if not (isinstance(fn, ast.FunctionDef) and any(
+                        isinstance(d, ast.Name) and d.id == 'classmethod'
+                        for d in fn.decorator_list) and
+                        len(fn.args.args) == 1):
+                    continue
+                cls = fn.args.args[0].arg
+                body = _body_wo_doc(fn)
+                if len(body) != 2 or not isinstance(body[0], ast.If) or \
+                        body[0].orelse or \
+                        not isinstance(body[1], ast.Return):
+                    continue
+                ret = body[1].value
+                if not (isinstance(ret, ast.Attribute) and
+                        isinstance(ret.value, ast.Name) and
+                        ret.value.id == cls):
+                    continue
+                attr = ret.attr
+                t_ = body[0].test
+                own = isinstance(t_, ast.Compare) and len(t_.ops) == 1 and \
+                    isinstance(t_.ops[0], ast.Is) and \
+                    isinstance(t_.comparators[0], ast.Constant) and \
+                    t_.comparators[0].value is None and \
+                    isinstance(t_.left, ast.Call) and \
+                    isinstance(t_.left.func, ast.Attribute) and \
+                    t_.left.func.attr == 'get' and \
+                    len(t_.left.args) in (1, 2) and \
+                    isinstance(t_.left.args[0], ast.Constant) and \
+                    t_.left.args[0].value == attr and (
+                        len(t_.left.args) == 1 or (
+                            isinstance(t_.left.args[1], ast.Constant) and
+                            t_.left.args[1].value is None)) and \
+                    ast.unparse(t_.left.func.value) in (
+                        'vars(%s)' % cls, '%s.__dict__' % cls)
+                if not own or stored.get(attr) != 1:
+                    continue
+                sets = [st for st in body[0].body
+                        if isinstance(st, ast.Assign)]
+                others = [st for st in body[0].body
+                          if not isinstance(st, ast.Assign)]
+                if len(sets) != 1 or len(sets[0].targets) != 1 or \
+                        ast.unparse(sets[0].targets[0]) != \
+                        '%s.%s' % (cls, attr) or any(
+                            not (isinstance(st, ast.Expr) and
+                                 isinstance(st.value, ast.Call) and
+                                 ast.unparse(st.value.func).startswith(
+                                     'LOG.')) for st in others):
+                    continue
+                e = sets[0].value
+                pure = all(
+                    not isinstance(x, ast.Call) or
+                    ast.unparse(x.func) == 're.compile'
+                    for x in ast.walk(e)) and all(
+                    not isinstance(x, ast.Name) or x.id in (cls, 're')
+                    for x in ast.walk(e))
+                if not pure:
+                    continue
+                new_body = [ast.copy_location(ast.Return(value=e), body[1])]
+                fn.body = fn.body[:len(fn.body) - len(body)] + new_body
+                ast.fix_missing_locations(fn)
+                n += 1
+    return n
+
+
 class _DictFlows(ast.NodeTransformer):
     """{k: f(v) for k, v in {a: g(b) for a, b in Y}.items()}
            -> {a: f(g(b)) for a, b in Y}
@@ -3079,7 +3169,7 @@ class _DictFlows(ast.NodeTransformer):
 
 
 def desugar(trees):
-    n = 0
+    n = _memo_own_attribute(trees)
     for t in trees.values():
         df = _DictFlows()
         df.visit(t)
